@@ -1,0 +1,72 @@
+//go:build verif
+
+package tls
+
+import (
+	"context"
+	"errors"
+)
+
+// Verification-only helpers of the TLS <= 1.2 handshake family (X12). Add-only, no call site in the library.
+//
+// The in-tree server has no renegotiation support (it answers a second ClientHello with no_renegotiation and
+// refuses a non-empty renegotiation_info). The conformance harness needs a peer that renegotiates, so that the
+// client's handleRenegotiation / secure-renegotiation checks can be driven; the two functions below let the
+// server side of an established connection originate a HelloRequest and run a second server handshake.
+
+// VerifTLS12SendHelloRequest writes a HelloRequest on an established TLS <= 1.2 connection. The message passes
+// through the same outgoing rewrite hook as every other handshake message.
+func VerifTLS12SendHelloRequest(c *Conn) error {
+	if c.vers == VersionTLS13 {
+		return errors.New("verif: HelloRequest needs TLS <= 1.2")
+	}
+	c.out.Lock()
+	defer c.out.Unlock()
+	data, err := (&helloRequestMsg{}).marshal()
+	if err != nil {
+		return err
+	}
+	data = verifOutgoing(c, data)
+	if len(data) == 0 {
+		return nil
+	}
+	_, err = c.writeRecordLocked(recordTypeHandshake, data)
+	return err
+}
+
+// VerifTLS12ServerRehandshake reads a ClientHello on an established server connection and runs the TLS <= 1.2
+// server handshake again on it (records protected by the current keys until the new ChangeCipherSpec).
+// The renegotiation_info of the ClientHello is returned and cleared before the server state machine sees it;
+// what the ServerHello carries in renegotiation_info is left to the outgoing rewrite hook.
+func VerifTLS12ServerRehandshake(c *Conn, ctx context.Context) (clientRI []byte, err error) {
+	if c.isClient {
+		return nil, errors.New("verif: server side only")
+	}
+	c.handshakeMutex.Lock()
+	defer c.handshakeMutex.Unlock()
+	c.in.Lock()
+	defer c.in.Unlock()
+	clientHello, _, err := c.readClientHello(ctx)
+	if err != nil {
+		return nil, err
+	}
+	if c.vers == VersionTLS13 {
+		c.sendAlert(alertProtocolVersion)
+		return nil, errors.New("verif: renegotiation ClientHello negotiates TLS 1.3")
+	}
+	clientRI = append([]byte{}, clientHello.secureRenegotiation...)
+	clientHello.secureRenegotiation = nil
+	hs := serverHandshakeState{c: c, ctx: ctx, clientHello: clientHello}
+	c.isHandshakeComplete.Store(false)
+	c.didResume = false
+	err = hs.handshake()
+	if err == nil {
+		c.handshakes++
+	} else {
+		c.flush()
+	}
+	return clientRI, err
+}
+
+// VerifTLS12ClearOverride forgets the override of a Config (the harness creates several Configs per scenario).
+func VerifTLS12ClearOverride(cfg *Config) { verifOverrides.Delete(cfg) }
